@@ -179,14 +179,40 @@ func realConfig(clientOrServer any) (cfg protocol.ProtocolConfig, err error) {
 	if v.Kind() != reflect.Ptr || v.IsNil() {
 		return cfg, fmt.Errorf("not a pointer: %T", clientOrServer)
 	}
-	f := v.Elem().FieldByName("Protocol")
-	if !f.IsValid() || f.IsNil() {
-		return cfg, fmt.Errorf("%T has no embedded *protocol.Protocol", clientOrServer)
+	// found by TYPE, not by name: the *protocol.Protocol field of the client/server
+	// and the ProtocolConfig field inside protocol.Protocol
+	var f reflect.Value
+	st := v.Elem()
+	for i := 0; i < st.NumField(); i++ {
+		if st.Field(i).Type() == reflect.TypeOf((*protocol.Protocol)(nil)) {
+			f = st.Field(i)
+			break
+		}
+	}
+	if !f.IsValid() {
+		return cfg, fmt.Errorf("%T has no *protocol.Protocol field", clientOrServer)
+	}
+	if !f.CanInterface() {
+		f = reflect.NewAt(f.Type(), unsafe.Pointer(f.UnsafeAddr())).Elem()
+	}
+	if f.IsNil() {
+		return cfg, fmt.Errorf("%T: protocol not initialised by the constructor", clientOrServer)
 	}
 	p := f.Elem() // protocol.Protocol
-	cf := p.FieldByName("config")
+	var cf reflect.Value
+	for i := 0; i < p.NumField(); i++ {
+		ft := p.Field(i).Type()
+		if ft == reflect.TypeOf(protocol.ProtocolConfig{}) {
+			cf = p.Field(i)
+			break
+		}
+		if ft == reflect.TypeOf((*protocol.ProtocolConfig)(nil)) && !p.Field(i).IsNil() {
+			cf = p.Field(i).Elem()
+			break
+		}
+	}
 	if !cf.IsValid() {
-		return cfg, fmt.Errorf("protocol.Protocol has no field config")
+		return cfg, fmt.Errorf("protocol.Protocol has no ProtocolConfig field")
 	}
 	cf = reflect.NewAt(cf.Type(), unsafe.Pointer(cf.UnsafeAddr())).Elem()
 	cfg, ok := cf.Interface().(protocol.ProtocolConfig)
@@ -208,7 +234,18 @@ func setUintField(ptr any, field string, val uint64) bool {
 	}
 	f := v.Elem().FieldByName(field)
 	if !f.IsValid() {
-		return false
+		// renamed: take the only integer field, if there is exactly one
+		n := 0
+		for i := 0; i < v.Elem().NumField(); i++ {
+			switch v.Elem().Field(i).Kind() {
+			case reflect.Uint, reflect.Uint64, reflect.Uint32, reflect.Uint16, reflect.Uint8, reflect.Int, reflect.Int64, reflect.Int32:
+				f = v.Elem().Field(i)
+				n++
+			}
+		}
+		if n != 1 {
+			return false
+		}
 	}
 	f = reflect.NewAt(f.Type(), unsafe.Pointer(f.UnsafeAddr())).Elem()
 	switch f.Kind() {
